@@ -296,6 +296,45 @@ Section MergeFacts.
   Qed.
 End MergeFacts.
 
+(* ------------------------------------------------------------------ associativity of the key order *)
+Lemma filter_filter' {A} (f g : A -> bool) l : filter f (filter g l) = filter (fun x => g x && f x) l.
+Proof.
+  induction l as [|x r IH]; cbn [filter]; [reflexivity|]. destruct (g x); cbn [andb filter]; [|exact IH].
+  destruct (f x); now rewrite IH.
+Qed.
+
+Section AssocKeys.
+  Variables ml ms : bool.
+
+  Lemma has_merge a b m : hashable_keys a -> hashable_keys b -> merge ml ms a b = Ok m ->
+    forall k, has k m = has k a || has k b.
+  Proof.
+    intros Ha Hb E k. pose proof (merge_lookup ml ms a b m Ha Hb E k) as L. unfold has.
+    destruct (lookup k a) as [x|]; destruct (lookup k b) as [y|]; cbn [orb].
+    - destruct L as (z & _ & ->). reflexivity.
+    - now rewrite L.
+    - now rewrite L.
+    - now rewrite L.
+  Qed.
+
+  (* when both groupings succeed they list the keys in the same order: a's, then b's new ones, then c's new ones *)
+  Lemma merge_assoc_keys a b c ab l bc r :
+    hashable_keys a -> hashable_keys b -> hashable_keys c ->
+    merge ml ms a b = Ok ab -> merge ml ms ab c = Ok l ->
+    merge ml ms b c = Ok bc -> merge ml ms a bc = Ok r ->
+    keys l = keys r /\
+    keys l = keys a ++ filter (fun k => negb (has k a)) (keys b)
+                    ++ filter (fun k => negb (has k a) && negb (has k b)) (keys c).
+  Proof.
+    intros Ha Hb Hc Eab El Ebc Er.
+    rewrite (merge_keys _ _ _ _ _ El), (merge_keys _ _ _ _ _ Eab), (merge_keys _ _ _ _ _ Er), (merge_keys _ _ _ _ _ Ebc).
+    rewrite filter_app, filter_filter', <- !app_assoc.
+    assert (F : filter (fun k => negb (has k ab)) (keys c) = filter (fun k => negb (has k a) && negb (has k b)) (keys c)).
+    { apply filter_ext. intros k. now rewrite (has_merge a b ab Ha Hb Eab k), negb_orb. }
+    rewrite F. split; [|reflexivity]. do 2 f_equal. apply filter_ext. intros k. apply andb_comm.
+  Qed.
+End AssocKeys.
+
 (* ------------------------------------------------------------------ composite *)
 Section CompositeFacts.
   Variable H : str -> str.
